@@ -638,7 +638,7 @@ def generate(ctx, chk):
     for name, tclass, init in ctx.schema:
         vals = pool(tclass, name, ctx.seps)
         if quick:
-            k = min(len(vals), 3)
+            k = min(len(vals), 5)
             start = (chk.seed + sum(map(ord, name))) % len(vals)
             picked = [vals[(start + i * max(1, len(vals) // k)) % len(vals)] for i in range(k)]
             picked += [rng.choice(vals)]
@@ -649,15 +649,15 @@ def generate(ctx, chk):
             variant2 = rng.choice([v for v in (0, 1, 2) if v != variant])
             with_cli = rng.random() < 0.5
             cli = gen_cli(rng, ctx.spec, name if name in ctx.cli_dests else None) if with_cli else []
-            if name in ctx.cli_dests and j < 2:      # the option itself on the command line, and not
+            if name in ctx.cli_dests and j < 3:      # the option itself on the command line (twice), and not
                 with_cli = True
-                cli = gen_cli(rng, ctx.spec, name, force=True) if j == 0 else []
+                cli = gen_cli(rng, ctx.spec, name, force=True) if j < 2 else []
             ctx.run_group([(name, a)], cli, variant, variant2, rng.choice(PRE_POST))
             if not quick:
                 ctx.run_group([(name, a)], gen_cli(rng, ctx.spec, name if name in ctx.cli_dests else None) if not with_cli else [],
                               variant2, variant, rng.choice(PRE_POST))
     # (2) random subsets of options
-    for _ in range(120 if quick else 2500):
+    for _ in range(250 if quick else 2500):
         ks = rng.sample(names, rng.choice([2, 2, 3, 4, 6, 10]))
         if rng.random() < 0.9:
             ks = [k for k in ks if k != "relative"]
@@ -687,7 +687,7 @@ def generate(ctx, chk):
     for lines in MALFORMED_MD:
         for pre, post in ([([], [])] if quick else PRE_POST[:3]):
             ctx.run_raw(list(pre) + lines + list(post), None, None, [], rng.choice([0, 1, 2]), what="metadata shapes")
-    for _ in range(150 if quick else 4000):
+    for _ in range(300 if quick else 4000):
         pre, post = rng.choice(PRE_POST)
         ctx.run_raw(list(pre) + fuzz_lines(rng) + list(post), None, None, [], rng.choice([0, 1, 2]), what="metadata fuzz")
     # (6) fpm.toml next to markdown metadata; fpm.toml without the table
@@ -696,7 +696,7 @@ def generate(ctx, chk):
     ctx.run_raw(["project: from md"], None, None, [], 2, toml_text='[extra]\nother = 1\n', what="fpm.toml without table")
     ctx.run_raw(["project: from md"], [], None, [], 0, what="empty table")
     # (7) precedence chains: file, --config and command line on the same options; mixed raw values
-    for _ in range(150 if quick else 3000):
+    for _ in range(300 if quick else 3000):
         ks = rng.sample(names, rng.choice([1, 2, 3, 5]))
         if rng.random() < 0.5:
             ks.append(rng.choice(sorted(ctx.cli_dests & set(names))))
@@ -717,7 +717,8 @@ def generate(ctx, chk):
             if rng.random() < 0.5:
                 cfg_kvs.append((k, aval_py(rng.choice(pool(ctx.types[k], k, ctx.seps)))))
         use_toml = rng.random() < 0.5
-        cli = gen_cli(rng, ctx.spec, rng.choice(ks) if rng.random() < 0.7 else None)
+        on_cli = [k for k in ks if k in ctx.cli_dests]
+        cli = gen_cli(rng, ctx.spec, rng.choice(on_cli) if on_cli else None, force=True)
         ctx.run_raw(lines, file_kvs if use_toml else None, cfg_kvs if (cfg_kvs or rng.random() < 0.2) else None,
                     cli, rng.choice([0, 1, 2]), ("cli",), what="precedence chain")
     # (8) command line conversions that can fail
@@ -879,6 +880,8 @@ def run(chk):
     chk.translate(["t3_schema.py"])
     ok = chk.build(["theories/Corr/C15.vo", "theories/Props/C15.vo"])
     chk.props("theories/Props/C15.v", THEOREMS)
+    if chk.tier == "thorough":
+        chk.coqchk(["Ford.Props.C15"])
     if not ok:
         return
     ctx = Ctx(chk)
